@@ -246,7 +246,7 @@ theorem dedupFetch_branches (cfg : Cfg) (tbl : Nat → Option ORes) (c : Cache) 
       ((fetchUpstream cfg tbl c now (upReq r range) rp).out = .notCacheable ∧
         dedupFetch cfg tbl c now r range rp =
           directFallback tbl (fetchUpstream cfg tbl c now (upReq r range) rp).cache r
-            (if (fetchUpstream cfg tbl c now (upReq r range) rp).rangeDropped then none else range)
+            range
             (fetchUpstream cfg tbl c now (upReq r range) rp).log
             (fetchUpstream cfg tbl c now (upReq r range) rp).rangeDropped
        ∨ (fetchUpstream cfg tbl c now (upReq r range) rp).out ≠ .notCacheable ∧
